@@ -859,6 +859,8 @@ CAP_BODIES = [
     ["seq", ["tok", 101], ["tok", 100]],
     ["try", ["tok", 100], ["E1"], ["tok", 101]],
     ["try", ["tok", 100], ["E1"], ["tok", 100]],
+    ["try", ["tok", 100], ["E1"], ["tok", 11]],
+    ["try", ["tok", 11], ["E1"], ["tok", 101]],
     ["fin", ["call", ["tok", 100]], ["log", 2]],
     ["try", ["tok", 101], ["E1"], ["ret", 6]],
     ["ret", 5], ["raise", ["E", 2]], ["tok", 11],
@@ -873,7 +875,7 @@ def gen_capture(rng, tier):
             yield {"bodies": [[p, a]]}
     for p, q in itertools.product(CAP_BODIES, repeat=2):
         yield {"bodies": [[p, False], [q, False]]}
-    for p, q in itertools.product(CAP_BODIES[:9], repeat=2):
+    for p, q in itertools.product(CAP_BODIES[:11], repeat=2):
         yield {"bodies": [[p, True], [q, False]]}
         yield {"bodies": [[p, False], [q, True]]}
     for i in range(400 if quick else 10000):
@@ -971,7 +973,7 @@ PROP = Prop(
          "bodies, each also nested 2 calls deep, random bodies of 3..12 nodes nested 0..4 deep (a third "
          "without any suspension); aiter: class-based iterators and native async generators of <= 2 items "
          "from a pool x 14 endings (+ take 0..2), random lists of <= 4 bodies; capture: all ordered pairs "
-         "of 13 bodies sharing two futures, with/without athrow, random triples.  Non-trivial = the body "
+         "of 15 bodies sharing two futures, with/without athrow, random triples.  Non-trivial = the body "
          "suspended, or completed through nested calls; distinct = distinct canonical JSON",
     signature=signature,
     assumptions=["CPython 3.12 coroutine protocol as modelled by Coro/Tree.v + Native.v (validated by C02's "
